@@ -69,6 +69,8 @@ inductive Ev
   /-- acceptance port answered: `back = false` accepted (`None`), `true` handed back (`Some(job)`) -/
   | reply (id : Nat) (back : Bool)
   | hook (h : Hook)
+  /-- ghost: job `id` completed on worker actor `aid` (the handler returned Ok) -/
+  | handled (aid id : Nat)
   /-- ghost: job died with worker actor `aid` (was running or in its mailbox) -/
   | lost (aid id : Nat)
   /-- ghost: job dropped without any report (factory stopped with jobs in a worker queue, …) -/
@@ -91,6 +93,10 @@ structure Actor where
   running : Option Job := none
   mailbox : List Job := []
   deriving Repr
+
+/-- the jobs an actor holds: the one it is handling and those in its mailbox -/
+def Actor.heldJobs (a : Actor) : List Job :=
+  (match a.running with | some j => [j] | none => []) ++ a.mailbox
 
 /-- What `WorkerProperties` functions can touch besides the worker's own record. -/
 structure Env where
@@ -166,8 +172,12 @@ def Env.emit (e : Env) (ev : Ev) : Env := { e with log := e.log ++ [ev] }
 
 def Env.getActor (e : Env) (aid : Nat) : Option Actor := e.actors.find? (·.aid == aid)
 
-def Env.setActor (e : Env) (a : Actor) : Env :=
-  { e with actors := e.actors.map fun x => if x.aid == a.aid then a else x }
+/-- replace the first actor with this id (ids are unique: `nextAid` is fresh) -/
+def setFirstActor (a : Actor) : List Actor → List Actor
+  | [] => []
+  | x :: xs => if x.aid == a.aid then a :: xs else x :: setFirstActor a xs
+
+def Env.setActor (e : Env) (a : Actor) : Env := { e with actors := setFirstActor a e.actors }
 
 /-- `handler.discard(reason, job)` if a handler is configured. -/
 def Env.discard (e : Env) (r : Reason) (j : Job) : Env := e.emit (.discard r j.id e.hasHandler)
@@ -195,7 +205,7 @@ def Env.die (e : Env) (aid : Nat) : Env :=
   | some a =>
     if !a.alive then e
     else
-      let held := (match a.running with | some j => [j] | none => []) ++ a.mailbox
+      let held := a.heldJobs
       let e := e.setActor { a with alive := false, running := none, mailbox := [], stopReq := false }
       { e with log := e.log ++ held.map (fun j => Ev.lost aid j.id), sup := e.sup ++ [aid] }
 
@@ -265,25 +275,28 @@ def shedOldest (limit : Nat) : Nat → WP → Env → WP × Env
       | (none, p, e) => shedOldest limit fuel p e
     else (p, e)
 
+/-- `enqueue_job`, Newest: the incoming job is the one shed -/
+def WP.shedsNewest (p : WP) : Bool :=
+  match p.disc with
+  | some (limit, .newest) => !p.isAvailable && decide (p.mq.length ≥ limit)
+  | _ => false
+
+/-- `enqueue_job` after the job was accepted and its key tracked -/
+def WP.enqueueAccepted (p : WP) (e : Env) (j : Job) : WP × Env :=
+  if p.curr.isEmpty then
+    match p.getNext e with
+    | (some older, p, e) => WP.dispatchJob { p with mq := p.mq ++ [j] } e older
+    | (none, p, e) => p.dispatchJob e j
+  else
+    let p := { p with mq := p.mq ++ [j] }
+    match p.disc with
+    | some (limit, .oldest) => shedOldest limit (p.mq.length + 1) p e
+    | _ => (p, e)
+
 /-- `enqueue_job` -/
 def WP.enqueueJob (p : WP) (e : Env) (j : Job) : WP × Env :=
-  let shedNewest := match p.disc with
-    | some (limit, .newest) => !p.isAvailable && decide (p.mq.length ≥ limit)
-    | _ => false
-  if shedNewest then (p, (e.discard .loadshed j).reject j)
-  else
-    let e := e.accept j
-    let j := { j with port := false }
-    let p := p.track j.key
-    if p.curr.isEmpty then
-      match p.getNext e with
-      | (some older, p, e) => WP.dispatchJob { p with mq := p.mq ++ [j] } e older
-      | (none, p, e) => p.dispatchJob e j
-    else
-      let p := { p with mq := p.mq ++ [j] }
-      match p.disc with
-      | some (limit, .oldest) => shedOldest limit (p.mq.length + 1) p e
-      | _ => (p, e)
+  if p.shedsNewest then (p, (e.discard .loadshed j).reject j)
+  else (p.track j.key).enqueueAccepted (e.accept j) { j with port := false }
 
 /-- `worker_complete` -/
 def WP.workerComplete (p : WP) (e : Env) (key : Nat) : WP × Env :=
@@ -305,9 +318,15 @@ def WP.replaceWorker (p : WP) (e : Env) (naid : Nat) : WP × Env :=
 /-! ## Pool and router state -/
 
 def getW (pool : List WP) (wid : Nat) : Option WP := pool.find? (·.wid == wid)
-def setW (pool : List WP) (p : WP) : List WP := pool.map fun x => if x.wid == p.wid then p else x
+/-- `pool.insert(wid, p)` for an existing slot (a `HashMap` has one entry per slot: first match) -/
+def setW : List WP → Nat → WP → List WP
+  | [], _, _ => []
+  | x :: xs, wid, p => if x.wid == wid then p :: xs else x :: setW xs wid p
 def hasW (pool : List WP) (wid : Nat) : Bool := pool.any (·.wid == wid)
-def removeW (pool : List WP) (wid : Nat) : List WP := pool.filter (·.wid != wid)
+/-- `pool.remove(&wid)` -/
+def removeW : List WP → Nat → List WP
+  | [], _ => []
+  | x :: xs, wid => if x.wid == wid then xs else x :: removeW xs wid
 
 def isFactoryQueueing : RouterKind → Bool
   | .q | .sq => true
@@ -328,6 +347,11 @@ def popAvail (pool : List WP) : List Nat → List Nat → Option Nat × List Nat
     match getW pool wid with
     | some p => if p.isAvailable then (some wid, rest, inQ) else popAvail pool rest inQ
     | none => popAvail pool rest inQ
+
+def hintProcessing (pool : List WP) (hint : Option Nat) (key : Nat) : Bool :=
+  match hint with
+  | some h => match getW pool h with | some p => p.isProcessingKey key | none => false
+  | none => false
 
 def hintAvailable (pool : List WP) (hint : Option Nat) : Bool :=
   match hint with
@@ -365,10 +389,7 @@ def W.chooseTargetWorker (w : W) (j : Job) (hint : Option Nat) : Option Nat × W
       let (r, avail, inQ) := popAvail w.pool w.avail w.inQ
       (r, { w with avail := avail, inQ := inQ })
   | .sq =>
-    let hintProcessing := match hint with
-      | some h => (match getW w.pool h with | some p => p.isProcessingKey j.key | none => false)
-      | none => false
-    if hintProcessing then (hint, w)
+    if hintProcessing w.pool hint j.key then (hint, w)
     else
       match w.pool.find? (·.isProcessingKey j.key) with
       | some p => (some p.wid, w)
@@ -402,7 +423,7 @@ def W.routeInner (w : W) (j : Job) (hint : Option Nat) : RouteResult × W :=
     | none => (.backlog, w)
     | some p =>
       let (p, e) := p.enqueueJob w.env j
-      (.handled, { w with pool := setW w.pool p, env := e })
+      (.handled, { w with pool := setW w.pool wid p, env := e })
 
 /-- `RateLimitedRouter::route_message` (`rl = none`: a limiter that always admits). -/
 def W.routeLimited (w : W) (j : Job) (hint : Option Nat) : RouteResult × W :=
@@ -515,7 +536,7 @@ def W.routeLoop (hint : Option Nat) : Nat → W → W
           | (.handled, w) => w
           | (.rateLimited, w) =>
             W.routeLoop hint fuel { w with env := (w.env.discard .rateLimited j).reject j }
-          | (.backlog, w) => (w.emit .panicked)
+          | (.backlog, w) => (w.emit .panicked).emit (.dropped j.id)
 
 def W.tryRouteNextActiveJob (w : W) (hint : Option Nat) : W :=
   let w := W.dropExpiredHead (w.queue.length + 1) w
@@ -549,7 +570,7 @@ def W.workerDiscard (w : W) (d : Option (Nat × Mode)) : Option (Nat × Mode) :=
 def W.growOne (w : W) (wid : Nat) : W :=
   match getW w.pool wid with
   | some p =>
-    let w := { w with pool := setW w.pool { p with draining := false } }
+    let w := { w with pool := setW w.pool wid { p with draining := false } }
     if p.isAvailable then w.availChange wid true else w
   | none =>
     let aid := w.nextAid
@@ -567,7 +588,7 @@ def W.growPool (w : W) (toAdd : Nat) : W :=
 def W.shrinkOne (w : W) (wid : Nat) : W :=
   match getW w.pool wid with
   | some p =>
-    if p.isWorking then { w with pool := setW w.pool { p with draining := true } }
+    if p.isWorking then { w with pool := setW w.pool wid { p with draining := true } }
     else
       let w := w.availChange wid false
       { w with
@@ -625,7 +646,7 @@ def W.workerFinishedJob (w : W) (who key : Nat) : W :=
   match getW w.pool who with
   | some p =>
     let (p, e) := p.workerComplete w.env key
-    let w := { w with pool := setW w.pool p, env := e }
+    let w := { w with pool := setW w.pool who p, env := e }
     if p.draining then
       if !p.isWorking then
         { w with
@@ -678,6 +699,15 @@ def W.retireIdleDrainingWorker (w : W) (wid : Nat) : Option W :=
     else none
   | none => none
 
+/-- tail of `handle_supervisor_evt` once the replacement is installed -/
+def W.afterReplace (w : W) (wid : Nat) : W :=
+  match w.retireIdleDrainingWorker wid with
+  | some w => w
+  | none =>
+    let w := w.tryRouteNextActiveJob (some wid)
+    if (match getW w.pool wid with | some p => p.isAvailable | none => false) then w.availChange wid true
+    else w
+
 /-- `handle_supervisor_evt` (ActorTerminated / ActorFailed: same code) -/
 def W.handleSupervisorEvt (w : W) (who : Nat) : W :=
   match w.byActor.find? (·.1 == who) with
@@ -689,30 +719,32 @@ def W.handleSupervisorEvt (w : W) (who : Nat) : W :=
       let naid := w.nextAid
       let e := w.env.spawn wid naid
       let (p, e) := p.replaceWorker e naid
-      let w := { w with
+      W.afterReplace { w with
         nextAid := naid + 1
         env := e
-        pool := setW w.pool p
-        byActor := (w.byActor.filter (fun (x : Nat × Nat) => x.1 != who)) ++ [(naid, wid)] }
-      match w.retireIdleDrainingWorker wid with
-      | some w => w
-      | none =>
-        let w := w.tryRouteNextActiveJob (some wid)
-        if (match getW w.pool wid with | some p => p.isAvailable | none => false) then w.availChange wid true
-        else w
+        pool := setW w.pool wid p
+        byActor := (w.byActor.filter (fun (x : Nat × Nat) => x.1 != who)) ++ [(naid, wid)] } wid
+
+/-- `post_stop`, remaining factory queue: Shutdown discards if a handler is configured,
+silently dropped otherwise -/
+def Env.dropQueued (e : Env) (j : Job) : Env :=
+  if e.hasHandler then e.discard .shutdown j else e.emit (.dropped j.id)
+
+/-- a message still in the factory's mailbox is dropped with it -/
+def Env.dropMsg (e : Env) : FMsg → Env
+  | .dispatch j => if j.port then (e.emit (.dropped j.id)).emit (.portClosed j.id) else e.emit (.dropped j.id)
+  | _ => e
+
+/-- jobs still in a worker queue vanish with the pool -/
+def Env.dropWorkerQueue (e : Env) (p : WP) : Env := p.mq.foldl (fun e j => e.emit (.dropped j.id)) e
 
 /-- `post_stop` -/
 def W.postStop (w : W) : W :=
-  -- remaining factory queue: Shutdown discards if a handler is configured, silently dropped otherwise
-  let e := w.queue.foldl (fun e j => if e.hasHandler then e.discard .shutdown j else e.emit (.dropped j.id)) w.env
-  -- jobs still in worker queues vanish with the pool
-  let e := w.pool.foldl (fun e p => p.mq.foldl (fun e j => e.emit (.dropped j.id)) e) e
+  let e := w.queue.foldl Env.dropQueued w.env
+  let e := w.pool.foldl Env.dropWorkerQueue e
   let e := w.pool.foldl (fun e p => e.stop p.actor) e
   let e := e.emit (.hook .stopped)
-  -- messages still in the mailbox are dropped with it
-  let e := w.inbox.foldl (fun e m => match m with
-    | .dispatch j => if j.port then (e.emit (.dropped j.id)).emit (.portClosed j.id) else e.emit (.dropped j.id)
-    | _ => e) e
+  let e := w.inbox.foldl Env.dropMsg e
   { w with env := { e with sup := [] }, queue := [], stopped := true, inbox := [], pool := w.pool.map (fun p => { p with mq := [] }) }
 
 def W.replyAvailableCapacity (w : W) : Nat :=
@@ -816,15 +848,18 @@ def W.finish (w : W) (aid : Nat) (ok : Bool) : W :=
       if !a.alive then w
       else if !ok then { w with env := (w.env.emit (.died aid)).die aid }
       else
-        let e := w.env.emit (.finishOk aid)
+        let e := (w.env.emit (.finishOk aid)).emit (.handled aid j.id)
         let w := { w with env := e }
         let w := w.send (.finished a.wid j.key)
         { w with env := (w.env.setActor { a with running := none }).settleOne aid }
 
 def W.applyOp (w : W) : Op → W
   | .dispatch id key hash ttl acc =>
-    let j : Job := { id, key, hash, expiry := ttl.map (w.env.now + ·), port := acc }
-    (w.emit (.dispatched id key acc)).send (.dispatch j)
+    -- a stopped factory accepts nothing: the cast fails and the caller keeps the job
+    if w.stopped then w
+    else
+      let j : Job := { id, key, hash, expiry := ttl.map (w.env.now + ·), port := acc }
+      (w.emit (.dispatched id key acc)).send (.dispatch j)
   | .finish aid ok => w.finish aid ok
   | .kill aid => { w with env := (w.env.emit (.died aid)).die aid }
   | .resize n => (w.emit (.requested n)).send (.adjust n)
@@ -844,17 +879,17 @@ def W.applyOp (w : W) : Op → W
     else w
   | .nop => w
 
+/-- one RPC query: no answer (`none`) if the factory is gone -/
+def W.ask (w : W) (m : FMsg) : W :=
+  if w.stopped then { w with answers := w.answers ++ [none] }
+  else
+    let n := w.answers.length
+    let w := W.runQ RUN_FUEL (w.send m)
+    if w.answers.length == n then { w with answers := w.answers ++ [none] } else w
+
 def W.queries (w : W) : W :=
   if w.blocked then { w with answers := [] }
-  else
-    let w := { w with answers := [] }
-    let ask := fun (w : W) (m : FMsg) =>
-      if w.stopped then { w with answers := w.answers ++ [none] }
-      else
-        let n := w.answers.length
-        let w := W.runQ RUN_FUEL (w.send m)
-        if w.answers.length == n then { w with answers := w.answers ++ [none] } else w
-    ask (ask (ask w .getQueueDepth) .getNumActiveWorkers) .getAvailableCapacity
+  else ((W.ask { w with answers := [] } .getQueueDepth).ask .getNumActiveWorkers).ask .getAvailableCapacity
 
 def W.live (w : W) : List Nat :=
   if w.stopped then [] else (w.env.actors.filter (·.alive)).map (·.aid)
@@ -868,6 +903,17 @@ def W.stepOp (w : W) (op : Op) (t0 tq te : Nat) : W :=
   let w := W.advanceTo te (advanceFuel w te) w
   let ans := fun (i : Nat) => (w.answers.getD i none)
   W.emit { w with lastWq := none } (.snap (!w.stopped) (ans 0) (ans 1) (ans 2) w.live w.lastWq)
+
+/-- one harness step with its three instants -/
+structure Step where
+  op : Op
+  t0 : Nat
+  tq : Nat
+  te : Nat
+
+def W.runSteps (w : W) : List Step → W
+  | [] => w
+  | s :: rest => W.runSteps (w.stepOp s.op s.t0 s.tq s.te) rest
 
 structure CaseCfg where
   cfg : Cfg
